@@ -43,6 +43,19 @@ func driveArray2D(plan []M, out *Out, _ []string) {
 				}
 				return int(x)
 			})
+		} else if str(plan[i], "ty") == "ptr" { // pointers to structs: &{v v+1}, nil for 0
+			type pr struct{ A, B int }
+			driveArray2DT(plan[i:j], out, "ptr", func(v int) *pr {
+				if v == 0 {
+					return nil
+				}
+				return &pr{v, v + 1}
+			}, func(x *pr) int {
+				if x == nil {
+					return 0
+				}
+				return x.A
+			})
 		} else if str(plan[i], "ty") == "slice" { // an element type that cannot be compared: []int{v}, nil for 0
 			driveArray2DT(plan[i:j], out, "slice", func(v int) []int {
 				if v == 0 {
